@@ -48,7 +48,7 @@ def _k1():
 
 
 def sizes(ctx):
-  return ctx.n(14, 120), ctx.n(8, 12)
+  return ctx.n(10, 120), ctx.n(8, 12)
 
 
 def correspond(ctx):
@@ -56,6 +56,7 @@ def correspond(ctx):
   nh, nb = sizes(ctx)
   res = K.traced_run(ctx, nh, nb)
   ctx._k1 = res
+  ctx.log('traced run: %d traces, record %.1fs, total %.1fs' % (len(res['codes']), res['wall_record_s'], res['wall_s']))
   ctx.extra['k1_stats'] = res['stats']
   ctx.extra['k1_wall_s'] = res['wall_s']
   for p in res['problems'][:5]:
@@ -122,7 +123,9 @@ def search(ctx):
     seen.add(issue['kind'])
     budget -= 1
     report_issue(ctx, issue, shrink=budget >= 0)
+  ctx.log('traced-run issues reported')
   shared = histrun.shared_run(ctx.tier, ctx.seed, ctx.n(20, 150), 10)
+  ctx.log('shared run available')
   ctx.extra['shared_run_stats'] = shared.get('stats')
   for issue in shared['issues']:
     if issue['prop'] != PROP:
